@@ -37,6 +37,8 @@ import (
 
 // c12Base is the fixed "now" of every miniredis instance (EXPIREAT is computed
 // against it), so TTLs on both sides are exactly comparable.
+const c12ShardPass = "c12-secret"
+
 var c12Base = time.Unix(1_000_000_000, 0).UTC()
 
 // ---------------------------------------------------------------------------
@@ -159,6 +161,8 @@ func c12ErrClass(err error) string {
 		return "redis.Nil"
 	case errors.Is(err, context.Canceled):
 		return "context.Canceled"
+	case errors.Is(err, context.DeadlineExceeded):
+		return "context.DeadlineExceeded"
 	case err == breaker.ErrServiceUnavailable:
 		return "breaker-open"
 	default:
@@ -241,6 +245,7 @@ type c12World struct {
 	mrB    *miniredis.Miniredis   // side B
 	cli    *red.Client            // raw go-redis on B
 	admin  []*red.Client          // harness-only clients on the A servers (SCRIPT FLUSH between histories)
+	ccli   *red.ClusterClient     // go-redis cluster client on B: the reference for Type=cluster histories
 }
 
 func c12NewWorld(nShards int) (*c12World, error) {
@@ -250,8 +255,13 @@ func c12NewWorld(nShards int) (*c12World, error) {
 		if err != nil {
 			return nil, err
 		}
+		pw := ""
+		if i == 3 { // configuration with a password: the fourth kv shard requires AUTH
+			pw = c12ShardPass
+			s.RequireAuth(pw)
+		}
 		w.shards = append(w.shards, s)
-		w.admin = append(w.admin, red.NewClient(&red.Options{Addr: s.Addr()}))
+		w.admin = append(w.admin, red.NewClient(&red.Options{Addr: s.Addr(), Password: pw}))
 	}
 	b, err := miniredis.Run()
 	if err != nil {
@@ -259,11 +269,13 @@ func c12NewWorld(nShards int) (*c12World, error) {
 	}
 	w.mrB = b
 	w.cli = red.NewClient(&red.Options{Addr: b.Addr()})
+	w.ccli = red.NewClusterClient(&red.ClusterOptions{Addrs: []string{b.Addr()}})
 	return w, nil
 }
 
 func (w *c12World) close() {
 	_ = w.cli.Close()
+	_ = w.ccli.Close()
 	for _, c := range w.admin {
 		_ = c.Close()
 	}
@@ -291,6 +303,7 @@ type c12Side struct {
 	rebuild func() reflect.Value // fresh instance with fresh breaker(s)
 	servers []*miniredis.Miniredis
 	node    redis.ClosableNode // blocking node (redis only)
+	cluster bool               // Type=cluster: the reference is a go-redis ClusterClient
 }
 
 // snapA: state of key k on side A (union of shards). dup = key on >1 shard.
@@ -312,7 +325,7 @@ func (s *c12Side) snapA(k string) (snap c12Snap, dup bool) {
 
 type c12X struct { // reference side context of one call
 	ctx   context.Context
-	cli   *red.Client
+	cli   red.Cmdable // the go-redis reference client on side B (ClusterClient for Type=cluster histories)
 	mrB   *miniredis.Miniredis
 	addrA string // address the wrapper instance was built for (redis side only)
 	// reissued: a breaker rejection was seen and the call was issued again (a
@@ -590,7 +603,9 @@ func (h *c12Hist) methodName(e *c12Entry, form c12Form) string {
 
 // step executes one table entry on both sides and compares results and state.
 // It returns false when the entry was not applicable (no call made).
-func (h *c12Hist) step(e *c12Entry, form c12Form, cancelled bool) bool {
+// ctxMode: 0 live context, 1 already cancelled, 2 deadline already expired.
+func (h *c12Hist) step(e *c12Entry, form c12Form, ctxMode int) bool {
+	cancelled := ctxMode != 0
 	if e.noCtx {
 		form = c12Plain
 	}
@@ -606,16 +621,26 @@ func (h *c12Hist) step(e *c12Entry, form c12Form, cancelled bool) bool {
 	ctx := context.Background()
 	if form == c12Ctx {
 		c, cancel := context.WithCancel(context.WithValue(context.Background(), c12CtxKey{}, h.idx))
-		if cancelled {
+		switch ctxMode {
+		case 1:
 			cancel()
-		} else {
+		case 2:
+			defer cancel()
+			var cancel2 context.CancelFunc
+			c, cancel2 = context.WithDeadline(c, time.Now().Add(-time.Hour))
+			defer cancel2()
+		default:
 			defer cancel()
 		}
 		ctx = c
 	} else {
-		cancelled = false
+		cancelled, ctxMode = false, 0
 	}
-	x := &c12X{ctx: ctx, cli: h.w.cli, mrB: h.w.mrB, addrA: h.side.servers[0].Addr()}
+	var ref red.Cmdable = h.w.cli
+	if h.side.cluster {
+		ref = h.w.ccli
+	}
+	x := &c12X{ctx: ctx, cli: ref, mrB: h.w.mrB, addrA: h.side.servers[0].Addr()}
 	callArgs := args
 	var finish func(got []any, gotErr error) (bool, string)
 	if e.prepare != nil {
@@ -625,8 +650,10 @@ func (h *c12Hist) step(e *c12Entry, form c12Form, cancelled bool) bool {
 		callArgs = append([]any{h.side.node}, args...)
 	}
 	opStr := fmt.Sprintf("%s%s", name, c12ArgStr(args))
-	if cancelled {
+	if ctxMode == 1 {
 		opStr += "[ctx cancelled]"
+	} else if ctxMode == 2 {
+		opStr += "[ctx deadline expired]"
 	}
 	h.log = append(h.log, opStr)
 
@@ -675,7 +702,9 @@ func (h *c12Hist) step(e *c12Entry, form c12Form, cancelled bool) bool {
 	}
 	h.st.calls[name]++
 	h.st.kinds["command_pairs"]++
-	if cancelled {
+	if ctxMode == 2 {
+		h.st.kinds["ctx_deadline_expired_calls"]++
+	} else if cancelled {
 		h.st.kinds["ctx_cancelled_calls"]++
 		h.st.cancelled[name]++
 	}
@@ -733,7 +762,7 @@ func (h *c12Hist) step(e *c12Entry, form c12Form, cancelled bool) bool {
 			case gotErr == nil:
 				h.st.kinds["result_ok"]++
 			case cancelled:
-				h.st.kinds["result_context.Canceled"]++
+				h.st.kinds["result_"+c12ErrClass(gotErr)]++
 			default:
 				h.st.kinds["result_server_error"]++
 			}
@@ -835,10 +864,15 @@ func (h *c12Hist) finalKeyspace() (nkeys int) {
 // ---------------------------------------------------------------------------
 // sides
 
-func c12RedisSide(w *c12World) (*c12Side, error) {
+func c12RedisSide(w *c12World, cluster bool) (*c12Side, error) {
 	addr := w.shards[0].Addr()
-	mk := func() reflect.Value { return reflect.ValueOf(redis.New(addr)) }
-	s := &c12Side{kind: "redis", obj: mk(), rebuild: mk, servers: w.shards[:1]}
+	mk := func() reflect.Value {
+		if cluster { // Type=cluster: go-redis ClusterClient; miniredis answers CLUSTER SLOTS with itself for all slots
+			return reflect.ValueOf(redis.New(addr, redis.WithCluster()))
+		}
+		return reflect.ValueOf(redis.New(addr))
+	}
+	s := &c12Side{kind: "redis", obj: mk(), rebuild: mk, servers: w.shards[:1], cluster: cluster}
 	return s, nil
 }
 
@@ -854,8 +888,12 @@ func c12KVSide(w *c12World, r *rand.Rand) (*c12Side, string) {
 			wt = 100
 		}
 		ws = append(ws, wt)
+		pw := ""
+		if i == 3 {
+			pw = c12ShardPass
+		}
 		conf = append(conf, cache.NodeConfig{
-			Config: redis.Config{Host: w.shards[i].Addr(), Type: redis.NodeType},
+			Config: redis.Config{Host: w.shards[i].Addr(), Type: redis.NodeType, Pass: pw},
 			Weight: wt,
 		})
 		servers = append(servers, w.shards[i])
